@@ -459,8 +459,8 @@ def check(prop, tier, seed, cfg, replay=None):
             result = json.load(open(os.path.join(workdir, "result.json")))
             for v in result["violations"]:
                 violations.append((v["key"], v["desc"], v["replay"]))
-            bad, errs, nchecked = eval_cases(workdir, result["case_files"])
-            if not errs and nchecked != result["cases_emitted"]:
+            bad, errs, nchecked = eval_cases(workdir, result.get("case_files") or [])
+            if not errs and nchecked != (result.get("cases_emitted") or 0):
                 errs.append("Coq evaluated %d cases but the harness emitted %d" % (nchecked, result["cases_emitted"]))
             for e in errs:
                 broken.append(("correspondence", e[-1200:]))
